@@ -90,6 +90,43 @@ let handle = function
         "ok " ^ e ^ " " ^ i ^ " " ^ i ^ " " ^ d ^ " " ^ w ^ " " ^ w ^ " " ^ t ^ " " ^ string_of_fnum n
         ^ " " ^ hx (v_str cf l) ^ " " ^ hx (v_str cf r) ^ " " ^ pr
       with U -> "unmod" | P -> "panic")
+  | "hist" :: cf :: ops ->
+      (* a multi-record history over the model of the record machinery (Model/Fields.v), typed by
+         Model/Value.v.  ops: R:<hex> record arrives | S:<k>:<hex> $k = string | T:<k>:<hex> $k =
+         number (its string form) | E:<k> $k = $k | N:<n> NF = n | Z:<hex> $0 = text | F:<hex> FS =
+         one char | P:<tag> probe of $0..$7: text, ($k == numstr(" " text)), ($k < 9) *)
+      let cf = bytes_of_hex cf in
+      let exception U in
+      let exception P in
+      let exception E in
+      let get = function Ok x -> x | Unmod -> raise U | Panic -> raise P | Err _ -> raise E in
+      let ebit = function
+        | Ok (VNum x) -> if string_of_fnum x = "1:0" then "1" else "0"
+        | Unmod -> raise U | _ -> raise P in
+      let nine = VNum (fnum_of_bits "4621256167635550208") in
+      let out = Buffer.create 256 in
+      (try
+        let st = ref xinit in
+        List.iter (fun tok ->
+          match String.split_on_char ':' tok with
+          | ["R"; h] -> st := xread !st (bytes_of_hex h)
+          | ["S"; k; h] | ["T"; k; h] -> st := get (xset_field !st (z_of_string k) (bytes_of_hex h))
+          | ["E"; k] -> st := get (xset_field_self !st (z_of_string k))
+          | ["N"; n] -> st := get (xset_nf !st (z_of_string n))
+          | ["Z"; h] -> st := get (xset_field !st (z_of_string "0") (bytes_of_hex h))
+          | ["F"; h] -> st := get (xset_fs1 !st (bytes_of_hex h))
+          | ["P"; tag] ->
+              for k = 0 to 7 do
+                let (s1, v) = get (xfield !st (z_of_int k)) in
+                st := s1;
+                let f = match v with VStr f -> f | VNumStr f -> f | _ -> [] in
+                let d = ebit (expr_site OEq cf v (VNumStr (z_of_int 32 :: f))) in
+                let l = ebit (expr_site OLt cf v nine) in
+                Buffer.add_string out (Printf.sprintf " %s:%d:%s:%s:%s" tag k (hex_of_bytes f) d l)
+              done
+          | _ -> failwith ("bad hist op " ^ tok)) ops;
+        "ok" ^ Buffer.contents out
+      with U -> "unmod" | P -> "panic" | E -> "err")
   | op :: _ -> "driver-error unknown-op " ^ op
   | [] -> "driver-error empty"
 
